@@ -21,8 +21,8 @@ ENGINE = {'name': 'router',
          'for the in-Coq comparison of the full event trace. Non-trivial = at least one prefetch pass happened and a route ran or the list has '
          '>= 2 routes; distinct = distinct (routes, script, trace) terms',
  'trusted_base': ['the scripted net.Conn, matchers, handlers and the zap core that classifies Compile\'s log lines into drop reasons (harness)',
-                  'the subroute handler is re-stated in the harness as `routes.Compile(logger, timeout, next).Handle(cx)` because package layer4 '
-                  'cannot import modules/l4subroute; that is the whole body of l4subroute.Handler.Handle'],
+                  'in the router engine the subroute handler is re-stated as `routes.Compile(logger, timeout, next).Handle(cx)` because package layer4 '
+                  'cannot import modules/l4subroute; the real module is run by the second C02 engine (c02_subroute)'],
  'modelled': ['layer4/routes.go: RouteList.Compile (lastMatchedRouteIdx, lastNeedsMoreIdx, routesStatus, matcherNeedMore, arm/clear of the deadline, all exits)',
               'layer4/matchers.go: MatcherSet.Match, MatcherSets.AnyMatch, MatchNot.Match evaluation order',
               'layer4/handlers.go: middleware chain, forwardNextHandler/lastHandler terminal detection',
